@@ -59,6 +59,16 @@ func BuildPool(e *eco.Eco, r *rand.Rand, n int, w *core.W) *Pool {
 	p := &Pool{Eco: e}
 	seen := map[string]bool{}
 	tries := 0
+	if r.IntN(10) == 0 { // one dense neighbourhood at every alignment (gen.AlignLadder) fills this pool
+		for _, s := range gen.AlignLadder(e.Name, r) {
+			if len(p.Strs) >= n {
+				break
+			}
+			tries++
+			ok := p.Add(s, seen)
+			countAcc(w, "gen/align-ladder", ok)
+		}
+	}
 	for len(p.Strs) < n && tries < n*40 {
 		if r.IntN(3) == 0 {
 			for k := 0; k < 12 && len(p.Strs) < n; k++ {
